@@ -40,6 +40,7 @@ enum {
     KC_BOOL,
     KC_EXACT,
     KC_NAN_AT_JUDGED,
+    KC_DEADLINE,
     KC_N
 };
 
@@ -333,6 +334,7 @@ int main(int argc, char **argv)
     cs.counter_names[KC_BOOL] = "points_with_boolean_reference";
     cs.counter_names[KC_EXACT] = "points_with_exact_reference(bit-exact demanded)";
     cs.counter_names[KC_NAN_AT_JUDGED] = "points_where_c_code_gave_nan_or_inf_but_reference_is_finite";
+    cs.counter_names[KC_DEADLINE] = "batches_skipped_after_deadline";
     cs.desc = [&](long long b) {
         long long lo = b * BATCH, hi = std::min<long long>(ITEMS.size(), lo + BATCH);
         return "batch " + std::to_string(b) + ": items " + std::to_string(lo) + ".." + std::to_string(hi - 1) + " (first: " + VNAME[ITEMS[lo].variant] + " of "
@@ -341,6 +343,10 @@ int main(int argc, char **argv)
     cs.crash_sig = [&](long long, const std::string &oc) { return "batch:" + oc; };
     cs.body = [&](long long b, Ctx &c) {
         long long lo = b * BATCH, hi = std::min<long long>(ITEMS.size(), lo + BATCH);
+        if (past_deadline()) { // run_cases tests the deadline only every 64 rounds; a batch costs up to a minute
+            c.count(KC_DEADLINE);
+            return;
+        }
         // group the batch by compile mode: 0 = c99 double, 1 = c89 double, 2 = c99 float
         for (int v = 0; v < NVAR; v++) {
             std::vector<Fn> fns;
@@ -516,6 +522,9 @@ int main(int argc, char **argv)
         run_cmd("rm -rf " + WORKDIR, o);
     }
     phase_log("C15", "batches");
+    uint64_t skipped = R.counters["batches_skipped_after_deadline"];
+    if (skipped)
+        R.exhaustive = false;
 
     R.states = P.V.size() + P.B.size();
     R.transitions = R.evaluations;
@@ -526,7 +535,8 @@ int main(int argc, char **argv)
     R.bound_completed = "all distinct expressions with recipes of <= 2 operations over " + std::to_string(pc.leavesV.size()) + " value + "
                         + std::to_string(pc.leavesB.size()) + " boolean leaves (" + std::to_string(P.V.size()) + " value + " + std::to_string(P.B.size())
                         + " boolean states) x {ccode/c99 double, c89 (where its text differs at level 2)" + (thorough ? ", ccode float" : ", ccode float for <= 1 operation")
-                        + "} x 3x3 grid; 21 number literals x 5 contexts x 3 printers";
+                        + "} x 3x3 grid; 21 number literals x 5 contexts x 3 printers"
+                        + (skipped ? " -- CUT BY DEADLINE: " + std::to_string(skipped) + " of " + std::to_string(cs.n) + " batches (the highest-numbered ones; simplest terms come first) were not run" : "");
     R.rule = "E1 typed term algebra as in C13, de-duplicated by structural key; each term is printed by C99CodePrinter (ccode), C89CodePrinter and "
              "ccode(Float); the text becomes the body of `T f(T x, T y) { return <code>; }`, " + std::to_string(BATCH)
              + " terms per C file, compiled by gcc -O0 -std=c99|c89 -Werror=implicit-function-declaration -lm and run on x in {-1.5,0.5,2} x y in "
